@@ -23,7 +23,7 @@ RULE = ("a probe model M is observed (argument names and values, state map, RHS 
         "process-global caches are recorded; non-trivial = history contains >= 1 compile of a model related to M; distinct = "
         "distinct (M, history) hash")
 DECIDING = ['observations_compared', 'earlier_functions_rechecked', 'hist_steps', 'hist_compiles', 'hist_no_clear_compiles',
-            'hist_exceptions', 'hist_same_opname', 'hist_same_objects', 'shared_subcircuit_cases', 'hist_shared_update_var', 'input_history_cases', 'revectorize_cases', 'fortran_file_name_cases', 'large_array_cases']
+            'hist_exceptions', 'hist_same_opname', 'hist_same_objects', 'shared_subcircuit_cases', 'hist_shared_update_var', 'input_history_cases', 'revectorize_cases', 'fortran_file_name_cases', 'large_array_cases', 'probe_models_with_zero_override']
 ASSUMPTIONS = ['the probe model is observed through fresh template objects built from its spec (the state carry-over of a '
                'template object is documented statefulness, DESIGN 4a)']
 CASE_TIMEOUT = 300
@@ -72,6 +72,14 @@ def gen_models(rnd, ctx):
         if c04.vec_risks(M) & ctx['excluded'] or 'vec_partial_input_default' in risk:
             continue
         break
+    if rnd.random() < 0.4:
+        # a node-level value of exactly 0.0 (falsy) for a constant whose template default is not zero
+        ntn = rnd.choice(sorted(M['node_types']))
+        opn = rnd.choice(M['node_types'][ntn]['ops'])
+        cs_ = [v for v, d in M['ops'][opn]['vars'].items() if d[0] == 'const']
+        if cs_:
+            M['node_types'][ntn].setdefault('over', {}).setdefault(opn, {})[rnd.choice(cs_)] = 0.0
+            M['__zero_override'] = True
     models = {'M': M}
     # same operator names, different equations and defaults
     for _ in range(200):
@@ -681,6 +689,8 @@ def run_case(case, ctx):
         risk = sorted(r)
     M = models['M']
     mech = {'hist_steps': len(steps)}
+    if M.pop('__zero_override', None) or any(v_ == 0.0 for nt_ in M['node_types'].values() for ov_ in nt_.get('over', {}).values() for v_ in ov_.values()):
+        mech['probe_models_with_zero_override'] = 1
     res = {'features': sorted({s['op'] for s in steps} | {s['model'] for s in steps}), 'risk': risk,
            'sig': stable_hash([M, steps]), 'case_extra': {'steps': steps},
            'nontrivial': any(s['op'] in ('get_run_func', 'run', 'get_jacobian_func') and s['model'] != 'unrelated' for s in steps)}
